@@ -79,7 +79,44 @@ def T_diamond():
     return "diamond", sp, items, preops
 
 
-TEMPLATES = [T_main, T_diamond]
+def T_nested():
+    """bases that are NESTED spaces: child / grandchild / parametrised child of X are bases of spaces outside X
+    (top level, derived-of-derived, nested elsewhere, next to a surviving base defining the same name) which do
+    not inherit from X itself, and of a sibling inside X.  Deleting X (or X.C, X.C.G, X.N) removes those bases, so
+    every member derived through them, every value computed from them and every node must go."""
+    sp = Spec(refs={"g": lit(10)}, spaces={
+        "X": S_(cells={"xa": C_("lambda x: x + g")}, refs={"xr": lit(2)},
+                spaces={
+                    "C": S_(cells={"c1": C_("lambda x: x + cr"), "c2": C_("lambda: c1(1) * 2")}, refs={"cr": lit(5)},
+                            spaces={"G": S_(cells={"gg": C_("lambda x: x * 9")}, refs={"gr": lit(1)})}),
+                    "C2": S_(bases=[("X", "C")], cells={"c3": C_("lambda: c2() + 1")}),
+                    "N": S_(formula={"params": "i"}, cells={"n1": C_("lambda x: x + i")}),
+                }),
+        "Y": S_(cells={"y1": C_("lambda: 7"), "gg": C_("lambda x: x + 100")}),
+        "P": S_(bases=[("X", "C")], cells={"own": C_("lambda x: c1(x) + cr + 1")}),
+        "P2": S_(bases=[("P",)], cells={"p2": C_("lambda: own(1) + c2()")}),
+        "Q": S_(bases=[("X", "C", "G"), ("Y",)], cells={"q": C_("lambda x: gg(x) + y1()"), "qr": C_("lambda: gr")}),
+        "PN": S_(bases=[("X", "N")], formula={"params": "i"}, cells={"pn": C_("lambda: n1(1) + 1000")}),
+        "Z": S_(spaces={"ZP": S_(bases=[("X", "C")], cells={"zp": C_("lambda: c2() + 3")})}),
+        "T": S_(cells={"t1": C_("lambda x: pc1(x) + 1"), "t2": C_("lambda x: psp.c1(x)"),
+                       "t3": C_("lambda x: _model.P.own(x)"), "t4": C_("lambda: _model.P2.p2()"),
+                       "t5": C_("lambda: _model.Q.q(1)"), "t6": C_("lambda: _model.PN[1].pn()"),
+                       "t7": C_("lambda: _model.Z.ZP.zp() + _model.X.C2.c3()"), "t8": C_("lambda: _model.P.cr + tr")},
+                refs={"pc1": obj(("P", "c1")), "psp": obj(("P",)), "tr": lit(2)}),
+    })
+    items = [("X", "N", (1,)), ("PN", (1,)), ("PN", (2,))]
+    preops = [
+        ("eval",),
+        ("set_cformula", ("P", "c2"), "lambda: c1(2) * 3"),          # override a cells derived from the nested base
+        ("set_input", ("X", "C", "c1"), 5, 50),
+        ("new_cells", ("X", "C"), "nw", "lambda: 1"),
+        ("set_ref", ("X", "C"), "cr", lit(6)),
+        ("add_bases", ("T",), ("X", "C", "G")),                      # one more outside sub of the grandchild
+    ]
+    return "nested", sp, items, preops
+
+
+TEMPLATES = [T_main, T_diamond, T_nested]
 
 # ------------------------------------------------------------------------------------------ observation
 
@@ -559,10 +596,12 @@ def chunked(tname, pre):
 
 def run(res, tier, seed):
     maxpre = 2 if tier == "quick" else 3
-    res.bound = ("2 model templates (<= 9 spaces, nesting <= 3: multiple inheritance incl. a diamond and derived-of-"
+    res.bound = ("3 model templates (<= 12 spaces, nesting <= 3: multiple inheritance incl. a diamond and derived-of-"
                  "derived, parametrised spaces with child spaces, parametrised child, item of item, derived "
                  "parametrised space, formula choosing another base, dependents reading by name / cells ref / space "
-                 "ref / attribute path / through an instance); histories = every sequence of <= %d preparatory steps (quick: "
+                 "ref / attribute path / through an instance; nested child / grandchild / parametrised child spaces "
+                 "of a space as bases of spaces outside it: top level, derived-of-derived, nested elsewhere, next to "
+                 "a surviving base with the same name, and of a sibling inside it); histories = every sequence of <= %d preparatory steps (quick: "
                  "length-2 prefixes in one order only) "
                  "out of 5-6 (evaluate everything, override a derived cells, input, new base cells, ref change, base "
                  "edit that discards instances; each followed by full evaluation and a harvest of handles to every "
